@@ -12,7 +12,9 @@
 @loopstart 1
     proof {
         assert(value >> 7 < value && (value >> 7) == value / 128
-            && (((value & 0b01111111) as u8) | 0b10000000) == (value % 128 + 128) as u8) by(bit_vector)
+            && (((value & 0b01111111) as u8) | 0b10000000) == (value % 128 + 128) as u8
+            && (0b10000000 | ((value & 0b01111111) as u8)) == (value % 128 + 128) as u8
+            && (((0b01111111 & value) as u8) | 0b10000000) == (value % 128 + 128) as u8) by(bit_vector)
             requires value >= 128;
         assert(w.out().push((value % 128 + 128) as u8) + enc_uint((value / 128) as nat) =~= w.out() + enc_uint(value as nat));
     }
@@ -35,7 +37,9 @@
 @loopstart 1
     proof {
         assert(value >> 7 < value && (value >> 7) == value / 128
-            && (((value & 0b01111111) as u8) | 0b10000000) == (value % 128 + 128) as u8) by(bit_vector)
+            && (((value & 0b01111111) as u8) | 0b10000000) == (value % 128 + 128) as u8
+            && (0b10000000 | ((value & 0b01111111) as u8)) == (value % 128 + 128) as u8
+            && (((0b01111111 & value) as u8) | 0b10000000) == (value % 128 + 128) as u8) by(bit_vector)
             requires value >= 128;
         assert(w.out().push((value % 128 + 128) as u8) + enc_uint((value / 128) as nat) =~= w.out() + enc_uint(value as nat));
     }
